@@ -248,7 +248,8 @@ def coq_strs(xs):
 def coq_cfg(cfgd):
     cfgd = full_cfg(cfgd)
     c = real_cfg(cfgd)
-    hm = {"drop": "Drop", "refuse": "Refuse", "dangerous": "Dangerous"}[c.header_map]
+    # (the canonical word of the case, not what the running Config made of its - possibly non-canonical - spelling)
+    hm = {"drop": "Drop", "refuse": "Refuse", "dangerous": "Dangerous"}[cfgd["header_map"]]
     ssh = "[" + ";".join("(%s%%N,%s%%N)" % (B(k), B(v)) for k, v in c.secure_scheme_headers.items()) + "]"
     return ("{| forwarded_allow_ips := %s; forwarder_headers := %s; secure_scheme_headers := %s; header_map := %s; "
             "proxy_protocol := %s; proxy_allow_ips := %s; is_ssl := %s; strip_header_spaces := %s; "
@@ -412,12 +413,13 @@ def ref_presented(cfgd, peer, uname):
     """Is a field with this (upper-cased) name mapped into the environ?  None = the request must be refused."""
     if b"_" not in uname:
         return True
-    c = real_cfg(full_cfg(cfgd))
+    full = full_cfg(cfgd)
+    c = real_cfg(full)
     if ref_trusted(c.forwarded_allow_ips, peer) and (uname.decode("latin-1") in c.forwarder_headers or "*" in c.forwarder_headers):
         return True
-    if c.header_map == "dangerous":
+    if full["header_map"] == "dangerous":
         return True
-    if c.header_map == "drop":
+    if full["header_map"] == "drop":
         return False
     return None
 
